@@ -197,6 +197,9 @@ func (c *Cluster) SetPick(topicName string, members []uint16) {
 	}
 }
 
+// MemberTopic is the topic of a key generation's second synchronisation (on the agreed member list).
+func MemberTopic(members []uint16) []byte { return memberTopic(members) }
+
 func memberTopic(members []uint16) []byte {
 	h := sha256.New()
 	for _, m := range members {
